@@ -3,6 +3,7 @@ package rules
 import (
 	"go/token"
 	"go/types"
+	"sort"
 	"strings"
 
 	"golang.org/x/tools/go/ssa"
@@ -42,6 +43,7 @@ type c04ctx struct {
 	reachCache map[*ssa.Function]map[*ssa.Function]bool
 	httpFns    map[*ssa.Function]bool // functions reachable from ServeHTTP (sync) that take a ResponseWriter
 	entry      *ssa.Function
+	guardFlags map[string]bool // bool members whose false edge guards the emission of the session header
 }
 
 func (x *c04ctx) reach(f *ssa.Function) map[*ssa.Function]bool {
@@ -93,7 +95,7 @@ func checkC04(c *Ctx) {
 		"404/400 refusal edges that reach no state change, stateless-mode guards on every Mcp-Session-Id emission, DELETE passing the stream cleanup, and the session table's locking, writer set and check-then-act atomicity."
 	c.R.NotDecided = "agreement of the live-session set with an arbitrary history (model-level claim); expiry timing; behaviour of a user-supplied session manager"
 	c.R.Assumptions = []string{"crypto/rand.Read fills the whole buffer or returns an error", "net/http serves each request on its own goroutine", "type-level lock identity"}
-	x := &c04ctx{c: c, accs: CollectAccesses(c), inserters: map[*ssa.Function]bool{}, deleters: map[*ssa.Function]bool{}, lookers: map[*ssa.Function]bool{},
+	x := &c04ctx{c: c, guardFlags: map[string]bool{}, accs: CollectAccesses(c), inserters: map[*ssa.Function]bool{}, deleters: map[*ssa.Function]bool{}, lookers: map[*ssa.Function]bool{},
 		reachCache: map[*ssa.Function]map[*ssa.Function]bool{}}
 
 	// ---- discover the session table
@@ -188,6 +190,7 @@ func checkC04(c *Ctx) {
 	flag := x.issuePoint()
 	x.refuse()
 	x.headerGuard()
+	x.flagWired()
 	x.stateless(flag)
 	x.deleteRule()
 	x.table()
@@ -793,6 +796,7 @@ func (x *c04ctx) headerGuard() {
 			for _, ff := range boolFieldFacts(c, fn, call.Block(), 0) {
 				if !ff.Value {
 					guarded = true // on the false edge of a bool flag (directly, or established by a check-and-report helper)
+					x.guardFlags[ff.Field] = true
 				}
 			}
 			c.R.Check(guarded, "R-header-guard", construct+": stateless guard", c.Pos(call.Pos()), "emitted only on the false edge of a stateless flag",
@@ -1033,4 +1037,132 @@ func ipos(c *Ctx, in ssa.Instruction) string {
 		}
 	}
 	return "-"
+}
+
+// ---------------------------------------------------------------- R-flag-wired
+// The objects that write the answer (the responders) carry their own copy of the stateless flag, and that copy guards
+// the Mcp-Session-Id header. Wherever the factory hands out a responder, it must be one constructed there with the
+// option that sets this flag — a responder built once with defaults (flag false) and shared would issue session ids
+// in stateless mode.
+func (x *c04ctx) flagWired() {
+	c := x.c
+	// owner type -> guard flags
+	byOwner := map[string][]string{}
+	for f := range x.guardFlags {
+		if i := strings.LastIndex(f, "."); i > 0 {
+			byOwner[f[:i]] = append(byOwner[f[:i]], f)
+		}
+	}
+	// option constructors: library functions returning a closure that stores into a guard flag of its parameter
+	setter := map[*ssa.Function]string{}
+	for _, fn := range c.P.LibFns {
+		if fn.Parent() == nil {
+			continue
+		}
+		ir.EachInstr(fn, func(_ *ssa.BasicBlock, _ int, in ssa.Instruction) {
+			if st, ok := in.(*ssa.Store); ok {
+				if f, base, ok := ir.FieldOf(st.Addr); ok && x.guardFlags[f.Key()] {
+					if _, isParam := base.(*ssa.Parameter); isParam {
+						setter[fn.Parent()] = f.Key()
+					}
+				}
+			}
+		})
+	}
+	n := 0
+	for _, fn := range c.P.LibFns {
+		res := fn.Signature.Results()
+		if res.Len() != 1 {
+			continue
+		}
+		it, ok := res.At(0).Type().Underlying().(*types.Interface)
+		if !ok || it.NumMethods() == 0 {
+			continue
+		}
+		if nt, ok := res.At(0).Type().(*types.Named); !ok || !ir.InLibrary(nt) {
+			continue
+		}
+		ir.EachInstr(fn, func(blk *ssa.BasicBlock, _ int, in ssa.Instruction) {
+			r, ok := in.(*ssa.Return)
+			if !ok || blk == fn.Recover {
+				return
+			}
+			v := ir.Unwrap(ir.Results(r)[0])
+			pt, ok := v.Type().(*types.Pointer)
+			if !ok {
+				return
+			}
+			nt, ok := pt.Elem().(*types.Named)
+			if !ok {
+				return
+			}
+			flags := byOwner[ir.TypeKey(nt)]
+			if len(flags) == 0 {
+				return
+			}
+			sort.Strings(flags)
+			for _, fl := range flags {
+				n++
+				set := false
+				why := "the responder it returns is not constructed here"
+				if call, ok := v.(*ssa.Call); ok {
+					why = "nothing derived from the factory's own stateless flag goes into its construction"
+					// what goes into the construction: arguments, arguments of option constructors, members of a
+					// configuration literal — one of them must be a bool member of the factory itself
+					var inputs []ssa.Value
+					seen := map[ssa.Value]bool{}
+					var add func(v ssa.Value, d int)
+					add = func(v ssa.Value, d int) {
+						if v == nil || d > 4 || seen[v] {
+							return
+						}
+						seen[v] = true
+						inputs = append(inputs, v)
+						for _, el := range variadicElems(v) {
+							if el != nil {
+								add(ir.Unwrap(el), d+1)
+							}
+						}
+						switch y := v.(type) {
+						case *ssa.Call:
+							for _, a := range y.Call.Args {
+								add(ir.Unwrap(a), d+1)
+							}
+						case *ssa.UnOp:
+							// a configuration struct built in place: the values stored into its members
+							if al, ok := y.X.(*ssa.Alloc); ok {
+								for _, rr := range *al.Referrers() {
+									if fa, ok := rr.(*ssa.FieldAddr); ok && fa.Referrers() != nil {
+										for _, r2 := range *fa.Referrers() {
+											if st, ok := r2.(*ssa.Store); ok {
+												add(ir.Unwrap(st.Val), d+1)
+											}
+										}
+									}
+								}
+							}
+						case *ssa.MakeClosure:
+							for _, b := range y.Bindings {
+								add(ir.Unwrap(b), d+1)
+							}
+						}
+					}
+					for _, a := range call.Call.Args {
+						add(ir.Unwrap(a), 0)
+					}
+					for _, in := range inputs {
+						if f, _, ok := ir.LoadedField(in); ok {
+							if bt, isB := f.Type.Underlying().(*types.Basic); isB && bt.Kind() == types.Bool {
+								set = true
+							}
+						}
+					}
+				}
+				c.R.Check(set, "R-flag-wired", sprintf("%s of the %s returned by %s", fl, nt.Obj().Name(), fname(fn)), c.Pos(r.Pos()), "constructed at the point of use with the option that sets the flag",
+					sprintf("%s hands out a %s whose flag %s guards the Mcp-Session-Id header, but %s: the flag keeps its default and a stateless server issues session ids", fname(fn), nt.Obj().Name(), fl, why))
+			}
+		})
+	}
+	c.R.Min("R-flag-wired", 2)
+	_ = n
 }
